@@ -18,7 +18,7 @@ from vlib import expr as X
 ID = "C07"
 LEVEL = "exploration"
 TECHNIQUE = "fresh-build differential (reference interpreter on the spec with overrides) over the kind x channel x model table"
-RULE = ("kind in {none, constant, two constants, all points, only-some points, constants+points, runspec start / stop / dt / all (DSL)} x "
+RULE = ("kind in {none, constant, two constants, all points, only-some points, constants+points, runspec start / stop / dt / all / start=0 (DSL)} x "
         "channel in {dict registration, manager base values (+ a scenario overriding them), one JSON file, manager spread over two JSON files, "
         "begin_session settings, REST /run settings} x model in {4 SD-DSL shapes incl. one built on dt()/starttime()/stoptime()/delay/pulse (object and file-based), 2 XMILE-sourced shapes}; 2 value draws "
         "(quick) / 8 (thorough). distinct_nontrivial = distinct (kind, channel, model) cells whose overridden trajectory differs from the "
@@ -94,7 +94,7 @@ SHAPES = shapes()
 CONSTS = {"D4": ["a"], "D1": ["a", "b"], "D2": ["k", "cap"], "D3": ["thr", "h"], "X1": ["rate"], "X2": ["frac", "base"]}
 CVALS = {"a": [0.1, 0.4], "b": [1.0, 3.5], "k": [0.1, 0.5], "cap": [20.0, 80.0], "thr": [0.6, 2.9], "h": [1.0, 5.0],
          "rate": [0.02, 0.1], "frac": [0.1, 0.5], "base": [0.0, 2.0]}
-KINDS = ["none", "const1", "const2", "points_all", "points_some", "const_points", "rs_start", "rs_stop", "rs_dt", "rs_all"]
+KINDS = ["none", "const1", "const2", "points_all", "points_some", "const_points", "rs_start", "rs_stop", "rs_dt", "rs_all", "rs_zero"]
 CHANNELS = ["dict", "base", "file1", "file2", "session", "rest"]
 
 
@@ -120,6 +120,8 @@ def overrides(shape, kind, draw):
         o["runspecs"] = {"stoptime": float(sto - 2 * dt)}
     if kind == "rs_dt":
         o["runspecs"] = {"dt": float(dt / 2)}
+    if kind == "rs_zero":
+        o["runspecs"] = {"starttime": 0.0 if draw % 2 else 0}     # exactly zero (float and int): must not be read as "not given"
     if kind == "rs_all":
         o["runspecs"] = {"starttime": float(st + 1), "stoptime": float(sto + 1), "dt": float(dt / 2)}
     return o
@@ -133,6 +135,8 @@ def gen_cases(tier, seed):
             if kind.startswith("rs_") and SHAPES[shape]["build"] != "dsl":
                 continue
             if kind == "const2" and len(CONSTS[shape]) < 2:
+                continue
+            if kind == "rs_zero" and float(SHAPES[shape]["run"]["start"]) == 0.0:
                 continue
             if kind == "points_some" and len(SHAPES[shape]["points"]) < 2:
                 continue
@@ -281,7 +285,17 @@ def run_case(case):
             b = bptk()
         elif ch in ("session", "rest"):
             b = bptk()
-            b.register_scenario_manager({"sm": dict(frag, scenarios={"sc": {}, "plain": {}})})
+            pre = {}
+            if case["draw"] % 2 == 1:
+                # the scenario already overrides the same constants / lookups with OTHER values: the delivered settings must win
+                if "constants" in o:
+                    pre["constants"] = {c: 11.5 for c in o["constants"]}
+                if "points" in o:
+                    pre["points"] = {p: [[0.0, 7.0], [9.0, 7.0]] for p in o["points"]}
+            b.register_scenario_manager({"sm": dict(frag, scenarios={"sc": pre, "plain": {}})})
+            if (case["draw"] + KINDS.index(kind) + len(shape)) % 2 == 0 or kind.startswith("rs_"):
+                # ... and it has been run before with its old settings (stale caches / cached grids must not survive the delivery)
+                b.run_scenarios(scenarios=["sc"], scenario_managers=["sm"], equations=list(names), return_format="dict")
         if "sm" not in b.scenario_manager_factory.scenario_managers or "sc" not in b.scenario_manager_factory.scenario_managers["sm"].scenarios:
             w = dict(kind="scenario-not-loaded", managers=list(b.scenario_manager_factory.scenario_managers))
         # ---- obtain results -------------------------------------------------
